@@ -798,8 +798,13 @@ func (g *gen) buildHistory() {
 		case x < 97:
 			ms := g.mutation()
 			for _, m := range ms {
-				// never replace a non-empty directory, and keep unreadable nodes out of listener runs
 				c.Hist = append(c.Hist, m)
+			}
+			if len(ms) > 0 && c.Listener {
+				// barrier: a fresh matching file; the runner waits until the listener has reported it
+				fresh := r.Bytes(20)
+				c.Hist = append(c.Hist, &hop{Op: "write", Path: c.Conf.Path + "/" + g.goodName(hex.EncodeToString(fresh)),
+					Kind: kFile, Content: []byte("barrier"), Barrier: fresh})
 			}
 			if len(ms) > 0 && r.Bool() {
 				c.Hist = append(c.Hist, &hop{Op: "refresh"})
